@@ -7,6 +7,7 @@ import itertools
 import os
 import re
 from hv import hx, V, REPO
+from props import c18_ws_common as common
 
 PART = 'b64'
 RULE = ('Base64: corpus (RFC 4648 §10 vectors, the F28 witnesses) first; encode of EVERY 1- and 2-byte input, random 3-byte '
@@ -194,7 +195,7 @@ def run(ctx):
             check_dec(ctx, [(data, 'replay')])
         return
 
-    thorough = ctx.tier == 'thorough'
+    thorough = common.effective_tier(ctx, 'humphrey-ws/src/util/base64.rs') == 'thorough'
     rng = ctx.rng
     alphabet_check(ctx)
 
@@ -304,6 +305,24 @@ def run(ctx):
             ctx.report({'part': PART, 'line': 'b64dec_spec ' + hx(s)}, 'spec=' + a, 'reference=' + fmt_dec(ref_decode(s)),
                        cls='spec-vs-oracle', failing_input=False,
                        what='the extracted RFC 4648 specification (wfb/denote) disagrees with the reference decoder')
+
+    # 6. extraction spot check: Coq's own vm_compute of the model vs the extracted OCaml model
+    xe = [rng.randbytes(n) for n in (0, 1, 2, 3, 4, 5, 17)]
+    xd = [b'', b'Zm9v', b'Zm8=', b'Zg==', b'+/+/', b'AB==', b'A', b'=AAA', b'AA=A', b'AA==AAAA', 'Zm9é'.encode(), rng.choice(mitems)[0]]
+    exprs = ['Base64.encode ' + common.coq_list(b) for b in xe] + ['Base64.decode ' + common.coq_list(t) for t in xd]
+    got, err = common.coq_cases(ctx, PART, ['Prelude', 'Base64'], exprs)
+    ext = ctx.model(['b64enc ' + hx(b) for b in xe] + ['b64dec ' + hx(t) for t in xd])
+    ext = [('ok:' + e[3:].encode('latin1').hex()) if (i < len(xe) and e.startswith('ok:')) else e.replace('ok:h', 'ok:')
+           for i, e in enumerate(ext)]
+    if got is None or len(got) != len(exprs):
+        ctx.report({'part': PART, 'coqc': err}, 'coqc failed on the generated cases file', 'vm_compute results', cls='coq-cases',
+                   failing_input=False, what='in-Coq evaluation of the Base64 model failed (extraction spot check could not run)')
+    else:
+        for e, a, b in zip(exprs, got, ext):
+            ctx.count('b64:extraction-spot-check')
+            if a != b:
+                ctx.report({'part': PART, 'expr': e[:200]}, 'extracted=' + b, 'vm_compute=' + a, cls='extraction',
+                           failing_input=False, what='the extracted OCaml Base64 model and Coq vm_compute disagree')
 
     ctx.sample({'part': PART, 'encode': items[300][0].hex(), 'gives': base64.b64encode(items[300][0]).decode()})
     ctx.sample({'part': PART, 'decode': ditems[12345][0].decode('latin1'), 'gives': fmt_dec(ref_decode(ditems[12345][0]))})
